@@ -565,16 +565,28 @@ class _ValueStored(Client):
     def should_inline(self, func, call, ctx):
         return func.cls is self.cf.cls
 
+    def _mentions_v(self, e, ctx) -> bool:
+        """the value parameter occurs in the expression, also through locals that merely name a payload (`item = (k, v)`)"""
+        from ..util import expand_all
+        fl = getattr(ctx.func.node, "_flow", None)
+        if fl is None:
+            fl = ctx.func.node._flow = Flow(ctx.func.node)
+        try:
+            e = expand_all(e, fl)
+        except Exception:
+            pass
+        return any(isinstance(n, ast.Name) and n.id == self.v for n in ast.walk(e))
+
     def event(self, kind, node, state, ctx: Ctx):
         if ctx.func.cls is not self.cf.cls:
             return (state,)
         if kind == "store" and isinstance(node, ast.Attribute):
             av = assigned_value(node)
-            if av is not None and any(isinstance(n, ast.Name) and n.id == self.v for n in ast.walk(av)):
+            if av is not None and self._mentions_v(av, ctx):
                 return (True,)
         if kind in ("call", "construct") and isinstance(node, ast.Call):
             tgt_is_list = isinstance(node.func, ast.Attribute) and self.cf.is_list(node.func.value, ctx.func)
-            if tgt_is_list and any(isinstance(n, ast.Name) and n.id == self.v for a in node.args for n in ast.walk(a)):
+            if tgt_is_list and any(self._mentions_v(a, ctx) for a in node.args):
                 return (True,)
         return (state,)
 
